@@ -571,6 +571,14 @@ def r8_3(ctx):
                 "or `/INBOX` are the inbox too but are handed on as a different mailbox `INBOX` (a second inbox beside the real one)",
                 last.lineno,
             )
+        # the same for the first level of the name: `/INBOX/lists`, `./Inbox/lists` are below the inbox too - the fold of a
+        # leading INBOX level has to see the name after its last normalisation as well
+        folds = [s_ for s_ in body_walk(fi.node) if isinstance(s_, ast.If) and any(isinstance(n_, ast.Compare) and isinstance(n_.left, ast.Call) and call_name(n_.left) in ("lower", "casefold") and isinstance(n_.comparators[0], ast.Constant) and n_.comparators[0].value == "inbox" for n_ in ast.walk(s_.test)) and any(isinstance(b_, ast.Assign) and norm(b_.targets[0]) == v and "'inbox'" in norm(b_.value) for b_ in s_.body)]
+        if folds:
+            if any(f_.lineno > last.lineno for f_ in folds):
+                ctx.ok("R8.3", where(fi), f"a leading INBOX level of `{v}` is folded after its last normalisation")
+            else:
+                ctx.bad("R8.3", fi.module, fi.qual, f"first-level INBOX fold before {norm(last, 60)}", f"the fold of a leading `INBOX/` level looks at the name before `{norm(last, 50)}`: `/INBOX/lists`, `./Inbox/lists` or `//INBOX//lists` are normalised to `INBOX/lists` afterwards and handed on as a mailbox in a second hierarchy beside the inbox", folds[0].lineno)
     # the list-pattern variant
     lp = p.func("parse.IMAPClientCommand._p_list_mailbox_pattern")
     from .common import pm_of
@@ -767,6 +775,56 @@ def r8_7(ctx):
         ctx.ok("R8.7", where(fi), "parsedate attaches UTC only to a naive result; an aware result keeps its own zone" if reps else "parsedate returns the decoded date-time unchanged")
 
 
+ATOM_SPECIALS = set('(){ %*"\\') | {chr(c) for c in range(0, 32)} | {chr(127)}
+ASTRING_SAMPLES = "]" + "[" + "abcxyzABCXYZ0189" + ".-_/@+=!#$&',;<>?^`|~:"
+
+
+def r8_8(ctx):
+    """The pattern `_atom` reads every unquoted astring: mailbox names, user names and passwords, search strings, flag
+    keywords.  RFC 3501: ASTRING-CHAR = ATOM-CHAR / resp-specials - every character but ( ) { SP CTL % * " and backslash, `]`
+    included.  The parser does not check for unread input, so a character the class wrongly excludes cuts the argument
+    short without any error: `DELETE work]old` deletes `work`.  The excluded set of the character class is computed from the
+    parsed pattern: it contains the atom-specials and none of the other printable characters."""
+    import re._parser as sre  # type: ignore[import-not-found]
+
+    p = ctx.p
+    node = p.module_constant("parse", "_atom")
+    ctx.require(isinstance(node, ast.Constant) and isinstance(node.value, str), "parse._atom is not a constant pattern", anchor=True)
+    src = node.value
+    try:
+        items = list(sre.parse(src))
+    except Exception as e:  # noqa: BLE001
+        ctx.bad("R8.8", "parse", "<module>", f"_atom = {src!r}", f"the atom pattern does not parse: {e}", node.lineno)
+        return
+    ok_shape = len(items) == 1 and str(items[0][0]) == "MAX_REPEAT" and items[0][1][0] == 1 and len(list(items[0][1][2])) == 1 and str(list(items[0][1][2])[0][0]) == "IN"
+    if not ok_shape:
+        ctx.bad("R8.8", "parse", "<module>", f"_atom = {src!r}", "the atom pattern is no longer one repeated character class: what it admits cannot be established", node.lineno)
+        return
+    cls = list(items[0][1][2])[0][1]
+    negated = bool(cls) and str(cls[0][0]) == "NEGATE"
+    members = set()
+    for op, av in cls:
+        name = str(op)
+        if name == "LITERAL":
+            members.add(chr(av))
+        elif name == "RANGE":
+            members.update(chr(c) for c in range(av[0], av[1] + 1))
+        elif name == "NEGATE":
+            pass
+        else:
+            ctx.bad("R8.8", "parse", "<module>", f"_atom = {src!r}", f"the atom class uses `{name}`: its members cannot be enumerated", node.lineno)
+            return
+    excluded = members if negated else {chr(c) for c in range(0, 128)} - members
+    lets_through = sorted(ATOM_SPECIALS - excluded)
+    cuts = [c for c in ASTRING_SAMPLES if c in excluded]
+    if lets_through:
+        ctx.bad("R8.8", "parse", "<module>", f"_atom = {src!r}", f"the atom pattern admits the atom-special {lets_through[0]!r}: an unquoted argument can swallow a list / literal / quoted-string delimiter", node.lineno)
+    elif cuts:
+        ctx.bad("R8.8", "parse", "<module>", f"_atom = {src!r}", f"the atom pattern excludes {cuts[0]!r}, which is a legal ASTRING-CHAR: an unquoted mailbox name, user name, password or search string is cut at the first {cuts[0]!r} and the rest is left unread (`DELETE work{cuts[0]}old` deletes `work`)", node.lineno)
+    else:
+        ctx.ok("R8.8", "parse:<module>", "the atom class excludes exactly the atom-specials (and `}`); `]` and every other printable character is read as part of an astring")
+
+
 def run(ctx):
     ctx.do(r8_1)
     ctx.do(r8_2)
@@ -776,6 +834,7 @@ def run(ctx):
     ctx.do(r8_5b)
     ctx.do(r8_6)
     ctx.do(r8_7)
+    ctx.do(r8_8)
     from . import c04, c16, c19
     ctx.do(c16.r16_2)
     ctx.do(c19.r19_6_7)
